@@ -8,21 +8,23 @@ What a theorem can carry here:
 1. the *inventory obligation*: `Generated/Effects.lean` is rewritten from /repo's AST on every
    run and lists every call site that can introduce nondeterminism (global numpy RNG, stdlib
    `random`, `DataFrame.sample`, new generators, generator draws, `hash`/`id`, clocks, sets whose
-   iteration order escapes); every entry must be *accounted for* by the rule below;
+   iteration order escapes, enumerations of the hash-ordered maps of a `Proteins` object); every entry must be *accounted for* by the rule below;
 2. the order-invariance facts the rule appeals to (proved in C02/C05).
 Bit-identity of numpy/sklearn/BLAS computations is established by differential execution only.
 -/
 namespace Mk
 open Mk.Generated
 
-/-- functions in which an unordered set is enumerated, with the theorem showing that the
-enumeration order cannot influence any result -/
-def orderInvariantFuncs : List (String × String) :=
-  [ ("make_train_sets", "C02_train_disjoint, C02_materialise_eq: the training rows are re-ordered by the index list"),
-    ("get_rows_from_dataframe", "C02_materialise_chunks: any order inside and between pieces"),
-    ("drop_missing_values_and_fill_spectra_dataframe", "set difference of column names, used for membership only (C10)"),
-    ("_group_proteins", "C16_order_independent: the grouping is invariant under every enumeration of every `matches` set"),
-    ("read_fasta", "`next(iter(prots))` is applied to one-element sets only (C16_unique_iff_one_group); the order inside the '; '-joined value strings of shared_peptides does depend on the hash seed, but those strings reach no result file (picked_protein only tests key membership) and the C08 harness compares them as sets") ]
+/-- the enumerations of unordered sets, site by site (function, what is enumerated), each with the
+theorem or argument showing that the enumeration order cannot influence any result -/
+def orderInvariantSites : List (String × String × String) :=
+  [ ("make_train_sets", "list", "C02_train_disjoint, C02_materialise_eq: the training rows are re-ordered by the index list"),
+    ("get_rows_from_dataframe", "list", "C02_materialise_chunks: any order inside and between pieces"),
+    ("drop_missing_values_and_fill_spectra_dataframe", "list", "set difference of column names, used for membership only (C10)"),
+    ("_group_proteins", "for:matches", "C16_order_independent: the grouping is invariant under every enumeration of every `matches` set"),
+    ("read_fasta", "iter:prots", "`next(iter(prots))` is applied to one-element sets only (C16_unique_iff_one_group)"),
+    ("read_fasta", "join:prots", "the order inside the '; '-joined value strings of shared_peptides does depend on the hash seed, but those strings reach no result file (picked_protein only tests key membership) and the C08 harness compares them as sets"),
+    ("read_fasta", "for:peps", "the enumeration of a protein's peptide set fixes only the KEY ORDER of the peptide -> proteins dictionary and hence of Proteins.peptide_map / shared_peptides; every enumeration of those maps is inventoried as a `map-order` effect and must be sorted or membership-only (rule below), so the key order reaches no result") ]
 
 /-- functions that read a clock for log messages only -/
 def clockFuncs : List String := ["output_start_message", "output_end_message", "make_timer", "elapsed", "main"]
@@ -35,7 +37,8 @@ def accounted (e : Effect) : Bool :=
   else if e.kind == "np-global" then
     (e.detail == "seed" && e.func == "main")                 -- CLI entry points seed the global state once
       || e.func == "_shuffle_proteins"                       -- make_decoys: not an observable of C08
-  else if e.kind == "set-order" then orderInvariantFuncs.any (fun p => p.1 == e.func)
+  else if e.kind == "set-order" then orderInvariantSites.any (fun p => p.1 == e.func && p.2.1 == e.detail)
+  else if e.kind == "map-order" then e.seeded                -- Proteins maps: `sorted(m.keys())` or `.isin(m.keys())` only
   else if e.kind == "clock" then clockFuncs.contains e.func
   else false                                                 -- stdlib random, hash()/id(), parse errors, anything new
 
@@ -55,7 +58,11 @@ theorem C08_rule_rejects_unseeded :
     accounted ⟨"mokapot/peptides.py", "match_decoy", 36, "df-sample", "targets.sample", false⟩ = false ∧
     accounted ⟨"mokapot/x.py", "f", 1, "py-random", "shuffle", false⟩ = false ∧
     accounted ⟨"mokapot/x.py", "f", 1, "hash-id", "hash", false⟩ = false ∧
-    accounted ⟨"mokapot/x.py", "f", 1, "np-global", "permutation", false⟩ = false := by decide
+    accounted ⟨"mokapot/x.py", "f", 1, "np-global", "permutation", false⟩ = false ∧
+    -- a new set enumeration inside an already-listed function is not covered by the old entry
+    accounted ⟨"mokapot/parsers/fasta.py", "read_fasta", 1, "set-order", "for:something_new", false⟩ = false ∧
+    -- the defect D25 repaired in /repo: the hash-ordered keys of peptide_map handed to the seeded shuffle
+    accounted ⟨"mokapot/picked_protein.py", "group_without_decoys", 201, "map-order", "raw:peptide_map.keys", false⟩ = false := by decide
 
 /-- Feeding the models of one run back in any order: `brew` sorts them by their fold tag, so
 every permutation of a list with pairwise distinct tags yields the same model list. -/
